@@ -29,7 +29,12 @@ def gen_program(rng):
 def run(ctx):
     # Tier B: FreeList.tla (reference-counted free list, refs word as [count, flag]; without the refs check a node is handed out twice)
     vlib.model_check_many(ctx, [dict(module_rel="mem/FreeListMC.tla", cfg_rel="mem/FreeList_q.cfg" if ctx.quick() else "mem/FreeList_t.cfg", workers=8, timeout=3000),
-                                dict(module_rel="mem/FreeListMC.tla", cfg_rel="mem/FreeList_bad_norefcheck.cfg", workers=4, expect_violation="NoDoubleHandOut")], par=2)
+                                dict(module_rel="mem/FreeListMC.tla", cfg_rel="mem/FreeList_bad_norefcheck.cfg", workers=4, expect_violation="NoDoubleHandOut"),
+                                # TaggedFreeList.tla ((pointer, tag) head with double-width CAS); refuted: no tag at all (textbook ABA) and -- thorough tier -- the seeded change C21b
+                                dict(module_rel="mem/TaggedFreeListMC.tla", cfg_rel="mem/TaggedFreeList_q.cfg", workers=2),
+                                dict(module_rel="mem/TaggedFreeListMC.tla", cfg_rel="mem/TaggedFreeList_bad_notag.cfg", workers=3, expect_violation="LinOK")] +
+                               ([] if ctx.quick() else [dict(module_rel="mem/TaggedFreeListMC.tla", cfg_rel="mem/TaggedFreeList_q3.cfg", workers=8, timeout=3000),
+                                                        dict(module_rel="mem/TaggedFreeListMC.tla", cfg_rel="mem/TaggedFreeList_bad_taghoisted.cfg", workers=8, expect_violation="LinOK", timeout=3000)]), par=4)
     q = ctx.quick()
     progs = PROGRAMS + [gen_program(ctx.rng) for _ in range(2 if q else 10)]
     deep = [("dfs", 6000 if q else 400000, 3)]
